@@ -643,7 +643,7 @@ def _corpus_plan(tier):
         exprs = corpus.expr_statements(depth=2, limit=4000)
     items = []
     for read in reads:
-        for sql in corpus.STATEMENTS:
+        for sql in corpus.STATEMENTS + PART_B_EXTRA:
             for use_schema in (False, True):
                 for prehash in (False, True):
                     items.append((sql, read, use_schema, prehash, targets if (not use_schema and not prehash) else []))
@@ -651,6 +651,19 @@ def _corpus_plan(tier):
         for prehash in (False, True):
             items.append((sql, "", True, prehash, []))
     return items
+
+
+# statements in which one table / column / alias is referred to several times in a way optimizer rules rewrite through a
+# per-table or per-name memo (db- and catalog-qualified columns, repeated CTE and alias references): a rule that attaches one
+# node object in several places produces a tree whose links disagree with where the node is stored
+PART_B_EXTRA = [
+    "SELECT db.t.a, db.t.b FROM db.t",
+    "SELECT c.db.t.a, c.db.t.b, db.t.c FROM c.db.t WHERE db.t.a > 1 ORDER BY db.t.b",
+    "SELECT db.t.a, db.u.a, db.t.b, db.u.b FROM db.t JOIN db.u ON db.t.a = db.u.a AND db.t.b = db.u.b",
+    "WITH w AS (SELECT a, b FROM t) SELECT w.a, w.b, w2.a, w2.b FROM w JOIN w AS w2 ON w.a = w2.a WHERE w.b = w2.b",
+    "SELECT a AS x, a AS y, a + a AS z FROM t GROUP BY a, a HAVING a > 0 AND a < 9 ORDER BY a, a",
+    "SELECT t.a, t.a, t.* FROM t AS t WHERE t.a IN (SELECT t.a FROM t AS t WHERE t.a = t.a)",
+]
 
 
 def run(tier, seed):
